@@ -174,6 +174,11 @@ func init() {
 			cases, results := c.replay("robust", r.cases, replayOpts{timeout: 120e9, opts: map[string]string{"tmp": tmp}, chunk: 4})
 			c.judge("robust", cases, results, func(cs, res map[string]J) string { in, _ := res["input"].(string); return in })
 			lexerStage(c)
+			// files that load and include each other (LoadGraph.tla: the loader terminates on every file graph; outcome, opens and
+			// visible facts replayed over an in-memory file system)
+			lg := c.mcHolds("LoadGraph", "LoadGraph_"+c.tier+".cfg", tlcOpts{})
+			gc, gr := c.replay("loadgraph", lg.cases, replayOpts{chunk: 256})
+			c.judge("loadgraph", gc, gr, func(cs, res map[string]J) string { in, _ := res["input"].(string); return in })
 			c.exhaustive = true
 		},
 	}
